@@ -142,6 +142,9 @@ def model_check(spec_module, cfg_file=None, cfg_text=None, *, expect_ok=True, co
     else:
         if finished or not r["errors"]:
             raise TLCError(f"TLC was expected to find a violation on {spec_module} ({cfg_file}) but did not:\n" + r["out"][-2000:])
+        if not any("violated" in e for e in r["errors"]):
+            # an evaluation error is not a refutation (a self-test passing on it would be vacuous)
+            raise TLCError(f"TLC failed instead of finding a violation on {spec_module} ({cfg_file}): {r['errors'][:2]}\n" + r["out"][-2000:])
     return r
 
 
